@@ -76,6 +76,11 @@ type PACEState struct {
 	// LastTerminalKey is the public key the terminal sent in the step being answered
 	LastTerminalKey []byte
 
+	// further grinding targets of the mapping step (default off; set at most one Grind* option per step)
+	GrindPKMapY     int // chip mapping public key Y
+	GrindMapSharedX int // x-coordinate of the mapping shared secret H = skMap * PKmap,IFD
+	GrindCAIC       int // chip authentication data CA_IC = skCA^-1 * skMap mod n of PACE-CAM (fixed-length octet string)
+
 	// session
 	step     int
 	sel      PaceSupport
@@ -339,6 +344,15 @@ func (p *PACEState) generalAuthenticate(c *Card, cmd *Cmd) ([]byte, uint16) {
 		if p.GrindPKMapX > 0 {
 			p.skMap, _ = p.grind(cv, p.skMap, cv.G(), func(q ecref.Point) bool { return leadingZeros(cv.FE2OS(q.X)) >= p.GrindPKMapX && !q.Equal(pk) })
 		}
+		if p.GrindPKMapY > 0 {
+			p.skMap, _ = p.grind(cv, p.skMap, cv.G(), func(q ecref.Point) bool { return leadingZeros(cv.FE2OS(q.Y)) >= p.GrindPKMapY && !q.Equal(pk) })
+		}
+		if p.GrindMapSharedX > 0 {
+			p.skMap, _ = p.grind(cv, p.skMap, pk, func(q ecref.Point) bool { return leadingZeros(cv.FE2OS(q.X)) >= p.GrindMapSharedX })
+		}
+		if p.GrindCAIC > 0 && p.CAMPriv != nil {
+			p.skMap = p.grindCAIC(cv, p.skMap)
+		}
 		p.pkMapIC = cv.Mul(p.skMap, cv.G())
 		if p.pkMapIC.Equal(pk) {
 			return fail(0x6300)
@@ -433,6 +447,46 @@ func (p *PACEState) generalAuthenticate(c *Card, cmd *Cmd) ([]byte, uint16) {
 		return p.respond(4, dynAuth(parts...))
 	}
 	return fail(0x6985)
+}
+
+// grindCAIC steps the mapping private key until skCA^-1 * skMap mod n (the chip
+// authentication data of PACE-CAM, sent as a fixed-length octet string) starts with
+// GrindCAIC zero octets. No point arithmetic is needed: a step adds skCA^-1.
+func (p *PACEState) grindCAIC(c *ecref.Curve, k *big.Int) *big.Int {
+	inv := new(big.Int).ModInverse(p.CAMPriv, c.N)
+	k = new(big.Int).Set(k)
+	ca := new(big.Int).Mul(inv, k)
+	ca.Mod(ca, c.N)
+	n := (c.N.BitLen() + 7) / 8
+	max := p.GrindMaxSteps
+	if max == 0 {
+		max = 400000
+	}
+	for i := 0; i < max; i++ {
+		if ca.Sign() != 0 && leadingZeros(ca.FillBytes(make([]byte, n))) >= p.GrindCAIC {
+			p.GrindSteps += i
+			return k
+		}
+		k.Add(k, big.NewInt(1))
+		ca.Add(ca, inv)
+		if k.Cmp(c.N) >= 0 {
+			k.SetInt64(1)
+			ca.Set(inv)
+		}
+		if ca.Cmp(c.N) >= 0 {
+			ca.Sub(ca, c.N)
+		}
+	}
+	panic("chipsim: grinding did not terminate")
+}
+
+// MappedGenerator returns the mapped generator of the run in progress; ok is false unless
+// the chip has answered the mapping step and waits for the terminal's agreement key.
+func (p *PACEState) MappedGenerator() (g ecref.Point, ok bool) {
+	if p.step != 3 {
+		return ecref.Point{}, false
+	}
+	return p.gMapped, true
 }
 
 // ChipDHPublic returns the encoded chip agreement public key of the current/last run.
